@@ -348,6 +348,29 @@ func extractStructure(e *env, f *facts) {
 	}
 	f.Bool["closeOpcodeTakesClosePath"] = routes
 
+	// handshake entry points close the transport when the inner procedure reports an error
+	hsCloses := true
+	if fn, ok := p.funcs["Upgrader.UpgradeFromConn"]; !ok || len(fn.Body.List) != 3 ||
+		!stmtIs(p, fn.Body.List[0], "socket, err := c.doUpgradeFromConn(conn, br, r)") ||
+		!stmtIs(p, fn.Body.List[1], "if err != nil { _ = c.writeErr(conn, err) _ = conn.Close() }") ||
+		!stmtIs(p, fn.Body.List[2], "return socket, err") {
+		hsCloses = false
+	}
+	for _, name := range []string{"NewClient", "NewClientFromConn"} {
+		fn, ok := p.funcs[name]
+		if !ok || len(fn.Body.List) < 3 {
+			hsCloses = false
+			continue
+		}
+		l := fn.Body.List
+		if !stmtIs(p, l[len(l)-3], "client, resp, err := c.handshake()") ||
+			!stmtIs(p, l[len(l)-2], "if err != nil { _ = c.conn.Close() }") ||
+			!stmtIs(p, l[len(l)-1], "return client, resp, err") {
+			hsCloses = false
+		}
+	}
+	f.Bool["handshakeEntryClosesOnError"] = hsCloses
+
 	// Broadcaster.writeFrame: position of the isClosed test relative to socket.mu.Lock()
 	wf := p.fn("Broadcaster.writeFrame")
 	lockIdx, checkIdx, unlockIdx, writeIdx, winIdx := -1, -1, -1, -1, -1
